@@ -134,6 +134,11 @@ def build(cs, valid_only=False):
             h.extend(rng.choice([0, 2]))
         else:
             h.extend(rng.choice([0, 0, 3, 8]))
+    if not valid_only and marker is None and rng.random() < 0.15:
+        # taken back again (and possibly requested once more)
+        h.apply({'op': 'rm_isohybrid'})
+        if rng.random() < 0.4:
+            h.apply(hy)
     ops = list(h.ops)
     if marker is not None:
         ops.insert(marker, {'op': 'reopen'})
@@ -179,6 +184,16 @@ def check(cfg, ops, seed, counters):
     data = img.getvalue()
     if m.hybrid is None:
         sess.close()
+        if any(o['op'] == 'rm_isohybrid' for o in ops):
+            # hybridisation taken back: the image is the one that never was a hybrid
+            tw = driver.replay(cfg, [o for o in ops if o['op'] not in ('add_isohybrid', 'rm_isohybrid')], seed)
+            timg, toc = tw.write()
+            tw.close()
+            counters['rm_isohybrid_twins'] = counters.get('rm_isohybrid_twins', 0) + 1
+            if toc.ok and timg.getvalue() != data:
+                t_ = timg.getvalue()
+                rng_ = common.diff_ranges(data[:min(len(data), len(t_))], t_[:min(len(data), len(t_))], limit=3)
+                return [{'key': 'rm_isohybrid:residue', 'detail': 'after rm_isohybrid the image (%d bytes) differs from the twin that never was a hybrid (%d bytes) at %s' % (len(data), len(t_), rng_)}]
         return []
     hy = ihy.decode(data)
     et = iet.decode(data, catalog_len=2048)
